@@ -55,7 +55,18 @@ structure ExtractSrc where
   arms : List (Guard × XArm)
 deriving DecidableEq, Repr
 
-inductive RunUserStep | maybeDeferred | addErrbackGotUserFailure | returnExtracted | unknown
+/-- `maybeDeferred thunk`: `defer.maybeDeferred(lambda: function(*args, **kwargs))` (`thunk = true`: the user's arguments, positional and
+keyword, go to the user's function and nowhere else) or `defer.maybeDeferred(function, *args, **kwargs)` (`false`: they pass through
+`maybeDeferred(f, *args, **kwargs)`, whose own parameter `f` a keyword of that name collides with) -/
+inductive RunUserStep | maybeDeferred (thunk : Bool) | addErrbackGotUserFailure | returnExtracted | unknown
+deriving DecidableEq, Repr
+
+/-- the signature of `_run_user` as found in the source.  `(self, function, /, *args, **kwargs)`: both named parameters positional-only,
+so that NO keyword name a cleanup was registered with (`addCleanup(f, function=…, self=…)`) can collide with them -/
+structure RunUserSig where
+  namedPositionalOnly : Bool
+  varArgs : Bool
+  varKwargs : Bool
 deriving DecidableEq, Repr
 
 /-- statements of the errback `_got_user_failure`: `return self._got_user_exception((failure.type, failure.value,
@@ -116,8 +127,11 @@ def extractI (e : ExtractSrc) (d : D) : Option (D × Extracted) :=
 
 /-- `_run_user` as the source has it, with the errback it installs: the model's errback (a probe that handles EVERY failure and
 returns the marker) is the reading of the one-statement `_got_user_failure`; anything else there is not interpreted -/
-def runUserI (steps : List RunUserStep) (gf : List GotFailureStep) (b : Beh) : Option Outcome :=
-  if steps = [.maybeDeferred, .addErrbackGotUserFailure, .returnExtracted] ∧ gf = [.reportUserException] then some (runUser b) else none
+def runUserI (sig : RunUserSig) (steps : List RunUserStep) (gf : List GotFailureStep) (b : Beh) : Option Outcome :=
+  -- the model calls the user's function with the user's arguments whatever they are called: that is the reading of this signature
+  -- and of the thunk form only
+  if sig = ⟨true, true, true⟩ ∧ steps = [.maybeDeferred true, .addErrbackGotUserFailure, .returnExtracted] ∧ gf = [.reportUserException]
+  then some (runUser b) else none
 
 /-- what the inner matcher of `succeeded(m)` / `failed(m)` says about the result the handler was given -/
 def innerV (vm : VM) : Res → Bool
@@ -136,7 +150,8 @@ def refSucceeded : MatcherSrc := { direct := true, onSuccess := .retInner, onFai
 def refFailed : MatcherSrc := { direct := true, onSuccess := .retMismatch, onFailure := .swallow .retInner, onNoResult := .retMismatch }
 def refExtract : ExtractSrc :=
   { installsAppendPair := true, arms := [(.failures, .raiseFailure), (.successes, .returnSuccess), (.otherwise, .raiseNotFired)] }
-def refRunUser : List RunUserStep := [.maybeDeferred, .addErrbackGotUserFailure, .returnExtracted]
+def refRunUser : List RunUserStep := [.maybeDeferred true, .addErrbackGotUserFailure, .returnExtracted]
+def refRunUserSig : RunUserSig := ⟨true, true, true⟩
 def refGotUserFailure : List GotFailureStep := [.reportUserException]
 
 end TTV.DeferredSkel
